@@ -20,10 +20,12 @@ import (
 type verifAccHash struct{ b []byte }
 
 func (h *verifAccHash) Write(p []byte) (int, error) { h.b = append(h.b, p...); return len(p), nil }
-func (h *verifAccHash) Sum(b []byte) []byte          { return append(b, []byte(digest.FromBytes(h.b).Encoded())...) }
-func (h *verifAccHash) Reset()                       { h.b = nil }
-func (h *verifAccHash) Size() int                    { return 32 }
-func (h *verifAccHash) BlockSize() int               { return 64 }
+func (h *verifAccHash) Sum(b []byte) []byte {
+	return append(b, []byte(digest.FromBytes(h.b).Encoded())...)
+}
+func (h *verifAccHash) Reset()         { h.b = nil }
+func (h *verifAccHash) Size() int      { return 32 }
+func (h *verifAccHash) BlockSize() int { return 64 }
 
 type verifAccDigester struct{ h *verifAccHash }
 
